@@ -259,8 +259,9 @@ let upload_s files block password script =
 
 (* ---------- client histories ---------- *)
 let utf8_cps (s : string) : n list =
-  (* tokens and serials are ASCII in the scenarios *)
-  List.init (String.length s) (fun i -> n_of_int (Char.code s.[i]))
+  (* a Rust String: its Unicode scalar values (decoded with the model's own UTF-8 decoder) *)
+  let bytes = List.init (String.length s) (fun i -> n_of_int (Char.code s.[i])) in
+  match utf8_dec bytes with Some cps -> cps | None -> bytes
 let string_of_bytes_hex h = String.concat "" (List.map (fun b -> String.make 1 (Char.chr (int_of_n b))) (unhex h))
 let show_text (s : string) =
   String.map (fun c -> if (c >= 'a' && c <= 'z') || (c >= 'A' && c <= 'Z') || (c >= '0' && c <= '9')
